@@ -80,6 +80,7 @@ SPECS["ZoneRecords::merge"] = {"props": ["C12"], "rewrites": [R3], "depub": True
         forall|l: Label| #[trigger] final(self).children@.contains_key(l) <==> (old(self).children@.contains_key(l) || other.children@.contains_key(l)), // [C12:child_names_are_union]
         forall|l: Label| #![trigger final(self).children@[l]] old(self).children@.contains_key(l) && !other.children@.contains_key(l) ==> final(self).children@[l] == old(self).children@[l], // [C12:child_only_here_unchanged]
         forall|l: Label| #![trigger final(self).children@[l]] !old(self).children@.contains_key(l) && other.children@.contains_key(l) ==> final(self).children@[l] == other.children@[l], // [C12:child_only_there_taken_whole]
+        tree_merged(*old(self), other, *final(self)), // [C12:every_node_of_the_merged_tree_holds_the_union]
     decreases other,""",
     "entry": "broadcast use vstd::std_specs::hash::group_hash_axioms, axiom_rt_key_model, axiom_label_key_model, axiom_borrowed_key_updated; proof { lemma_tree_wf_children(*old(self)); lemma_tree_wf_children(other); }",
     "loops": {"0": {"kw": "for", "spec": """        invariant
@@ -94,7 +95,10 @@ SPECS["ZoneRecords::merge"] = {"props": ["C12"], "rewrites": [R3], "depub": True
             forall|i: int| 0 <= i < it__.seq().len() ==> decreases_to!(other => #[trigger] it__.seq()[i].1),
             forall|l: Label| #[trigger] self.children@.contains_key(l) <==> (old(self).children@.contains_key(l) || exists|j: int| 0 <= j < it__.index@ && #[trigger] it__.seq()[j].0 == l),
             forall|l: Label| #![trigger self.children@[l]] old(self).children@.contains_key(l) && !other.children@.contains_key(l) ==> self.children@[l] == old(self).children@[l],
-            forall|j: int| 0 <= j < it__.index@ && !old(self).children@.contains_key(#[trigger] it__.seq()[j].0) ==> self.children@[it__.seq()[j].0] == it__.seq()[j].1,""",
+            forall|j: int| 0 <= j < it__.index@ && !old(self).children@.contains_key(#[trigger] it__.seq()[j].0) ==> self.children@[it__.seq()[j].0] == it__.seq()[j].1,
+            forall|j: int| 0 <= j < it__.index@ && old(self).children@.contains_key(#[trigger] it__.seq()[j].0) ==> tree_merged(old(self).children@[it__.seq()[j].0], it__.seq()[j].1, self.children@[it__.seq()[j].0]), // [C12:child_on_both_sides_merged_node_by_node]
+            forall|j: int| it__.index@ <= j < it__.seq().len() && old(self).children@.contains_key(#[trigger] it__.seq()[j].0) ==> self.children@[it__.seq()[j].0] == old(self).children@[it__.seq()[j].0],
+            it__.index@ == it__.seq().len() ==> forall|l: Label| old(self).children@.contains_key(l) && other.children@.contains_key(l) ==> #[trigger] tree_merged(old(self).children@[l], other.children@[l], self.children@[l]), // [C12:child_on_both_sides_merged_node_by_node]""",
         "entry": "broadcast use vstd::std_specs::hash::group_hash_axioms, axiom_label_key_model, axiom_borrowed_key_updated;"}},
     "anchors": [{"after": "for (k, other_zrs) in other.children", "at": "before",
                  "proof": """let ghost mid_this__ = Ghost(self.this); let ghost mid_wild__ = Ghost(self.wildcards);
@@ -102,7 +106,17 @@ proof {
     lemma_merged_typed(old(self).this@, other.this@, self.this@);
     if old(self).wildcards is Some && other.wildcards is Some { lemma_merged_typed(old(self).wildcards->Some_0@, other.wildcards->Some_0@, self.wildcards->Some_0@); }
 }"""},
-                {"after": "self.children.insert(k, other_zrs);\n            }\n        }", "proof": "proof { lemma_tree_wf_leaf(*self); }"}],
+                {"after": "self.children.insert(k, other_zrs);\n            }\n        }", "proof": """proof {
+    lemma_tree_wf_leaf(*self);
+    let a = *old(self); let r = *self;
+    assert forall|p: Seq<Label>| #[trigger] path_merged(a, other, r, p) by {
+        if p.len() > 0 {
+            let l = p.last(); let q = p.drop_last();
+            if other.children@.contains_key(l) && a.children@.contains_key(l) { lemma_tree_merged_at(a.children@[l], other.children@[l], r.children@[l], q); }
+        }
+    }
+    assert(tree_merged(a, other, r)) by { reveal(tree_merged); }
+}"""}],
 }
 
 ZM_NODE = """        node_rest_merged(*old(self), other, *final(self)),"""
@@ -121,7 +135,8 @@ SPECS["Zone::merge"] = {"props": ["C12"], "depub": True,
     "anchors": [{"after": "self.records.merge(other.records);", "at": "before", "proof": """proof {
     lemma_tree_wf_children(old(self).records);
     lemma_tree_wf_leaf(self.records);
-}"""}, {"after": "self.records.merge(other.records);", "proof": """proof {
+}
+let ghost pre_merge__ = self.records;"""}, {"after": "self.records.merge(other.records);", "proof": """proof {
     if other.soa is None && old(self).soa is Some {
         let f = self.records.this@[RecordType::SOA]@; let o = old(self).records.this@[RecordType::SOA]@;
         assert(o.no_duplicates());
@@ -130,6 +145,7 @@ SPECS["Zone::merge"] = {"props": ["C12"], "depub": True,
         if f.len() > 1 { assert(o.contains(f[1])); assert(f[1] == o[0]); assert(false); }
         assert(f =~= o);
     }
+    lemma_below_merged(old(self).records, pre_merge__, other.records, self.records);
 }"""}],
 }
 SPECS["Zones::insert"] = {"props": ["C12"], "depub": True,
@@ -193,6 +209,26 @@ SPECS["Hosts::merge"] = {"props": ["C12"], "rewrites": [R3],
 }
 
 SPEC_RS = """
+// C12 at every node of the tree: what the merged tree holds at a path is the union of what the two trees hold there
+spec fn wild_merged(x: Option<HashMap<RecordType, Vec<ZoneRecord>>>, y: Option<HashMap<RecordType, Vec<ZoneRecord>>>, z: Option<HashMap<RecordType, Vec<ZoneRecord>>>) -> bool {
+    &&& (z is Some <==> (x is Some || y is Some))
+    &&& (x is Some && y is Some ==> zrs_merged(x->Some_0@, y->Some_0@, z->Some_0@))
+    &&& (x is None && y is Some ==> z == y)
+    &&& (x is Some && y is None ==> z == x)
+}
+spec fn path_merged(a: ZoneRecords, b: ZoneRecords, r: ZoneRecords, p: Seq<Label>) -> bool {
+    let na = node_at(a, p); let nb = node_at(b, p); let nr = node_at(r, p);
+    &&& (nr is Some <==> (na is Some || nb is Some))
+    &&& (na is Some && nb is Some ==> zrs_merged(na->Some_0.this@, nb->Some_0.this@, nr->Some_0.this@) && wild_merged(na->Some_0.wildcards, nb->Some_0.wildcards, nr->Some_0.wildcards))
+    &&& (na is Some && nb is None ==> nr == na)
+    &&& (na is None && nb is Some ==> nr == nb)
+}
+#[verifier::opaque]
+spec fn tree_merged(a: ZoneRecords, b: ZoneRecords, r: ZoneRecords) -> bool { forall|p: Seq<Label>| #[trigger] path_merged(a, b, r, p) }
+proof fn lemma_tree_merged_at(a: ZoneRecords, b: ZoneRecords, r: ZoneRecords, p: Seq<Label>)
+    requires tree_merged(a, b, r) ensures path_merged(a, b, r, p)
+{ reveal(tree_merged); }
+
 proof fn lemma_merged_typed(a: Map<RecordType, Vec<ZoneRecord>>, b: Map<RecordType, Vec<ZoneRecord>>, r: Map<RecordType, Vec<ZoneRecord>>)
     requires zrs_merged(a, b, r), recs_typed(a), recs_typed(b)
     ensures recs_typed(r)
@@ -229,6 +265,20 @@ spec fn node_rest_merged(a: ZoneRecords, b: ZoneRecords, r: ZoneRecords) -> bool
     &&& forall|l: Label| #[trigger] r.children@.contains_key(l) <==> (a.children@.contains_key(l) || b.children@.contains_key(l))
     &&& forall|l: Label| #![trigger r.children@[l]] a.children@.contains_key(l) && !b.children@.contains_key(l) ==> r.children@[l] == a.children@[l]
     &&& forall|l: Label| #![trigger r.children@[l]] !a.children@.contains_key(l) && b.children@.contains_key(l) ==> r.children@[l] == b.children@[l]
+    &&& below_merged(a, b, r)
+}
+// every node strictly below the root of the tree holds the union (the root's own records are stated separately: SOA handling)
+#[verifier::opaque]
+spec fn below_merged(a: ZoneRecords, b: ZoneRecords, r: ZoneRecords) -> bool { forall|p: Seq<Label>| p.len() > 0 ==> #[trigger] path_merged(a, b, r, p) }
+proof fn lemma_below_merged(a0: ZoneRecords, a: ZoneRecords, b: ZoneRecords, r: ZoneRecords)
+    requires tree_merged(a, b, r), a0.children == a.children
+    ensures below_merged(a0, b, r)
+{
+    reveal(below_merged);
+    assert forall|p: Seq<Label>| p.len() > 0 implies #[trigger] path_merged(a0, b, r, p) by {
+        lemma_tree_merged_at(a, b, r, p);
+        assert(node_at(a0, p) == node_at(a, p));
+    }
 }
 spec fn zone_merged(a: Zone, b: Zone, r: Zone) -> bool {
     &&& r.apex == a.apex
